@@ -409,23 +409,27 @@ func c09R3(c *Ctx) {
 		}
 		for _, dang := range dangSources {
 			dAliases := Aliases(dang)
-			for _, ap := range CallsTo(host, "builtin:append") {
-				elems, whole := c09AppendedElems(ap)
-				// append(queue, slices.DeleteFunc(danglings, isTagged)...): keeps exactly the untagged ones
+			// slices that are handed on as a whole: appended (`append(q, xs...)`), or returned to the caller
+			// that enqueues them; slices.Concat(a, b) hands on both
+			for _, sk := range c09WholeSinks(host, host != h.del && host != h.deleteOne) {
+				at, whole := sk.at, sk.whole
+				// slices.DeleteFunc(danglings, isTagged): keeps exactly the untagged ones
 				if df := c09DeleteFuncOf(whole, dAliases); df != nil {
 					nEnq++
 					usesInline = true
-					ok := c09GuardedUp(c.P, ap.(ssa.Instruction), nil, autoGCEdges, 2)
-					c.Check(R3, dn+"|dangling-only-under-AutoGC", ap.Pos(), ok, ifelse(ok, "a dangling node is enqueued only on the s.AutoGC edge", "dangling nodes are deleted although AutoGC is off"))
+					ok := c09GuardedUp(c.P, at, nil, autoGCEdges, 2)
+					c.Check(R3, dn+"|dangling-only-under-AutoGC", at.Pos(), ok, ifelse(ok, "a dangling node is enqueued only on the s.AutoGC edge", "dangling nodes are deleted although AutoGC is off"))
 					ok = c09PredIs(df.Call.Args[1], h.isTagged)
-					c.Check(R3, dn+"|dangling-only-if-untagged", ap.Pos(), ok, ifelse(ok, "the tagged dangling nodes are filtered out with slices.DeleteFunc(danglings, isTagged) before they are enqueued", "the dangling nodes are filtered with a predicate that is not the isTagged test: a tagged manifest can be deleted"))
+					c.Check(R3, dn+"|dangling-only-if-untagged", at.Pos(), ok, ifelse(ok, "the tagged dangling nodes are filtered out with slices.DeleteFunc(danglings, isTagged) before they are enqueued", "the dangling nodes are filtered with a predicate that is not the isTagged test: a tagged manifest can be deleted"))
 					continue
 				}
-				if whole != nil && dAliases[whole] {
-					c.Violation(R3, dn+"|dangling-enqueued-unfiltered", ap.Pos(), "the dangling nodes returned by the delete are enqueued as a whole, without the !isTagged filter: tagged manifests would be deleted")
+				if dAliases[whole] || dAliases[c09Resolved(whole)] {
+					c.Violation(R3, dn+"|dangling-enqueued-unfiltered", at.Pos(), "the dangling nodes returned by the delete are enqueued as a whole, without the !isTagged filter: tagged manifests would be deleted")
 					nEnq++
-					continue
 				}
+			}
+			for _, ap := range CallsTo(host, "builtin:append") {
+				elems, _ := c09AppendedElems(ap)
 				for _, e := range elems {
 					if !c09ElemOf(e, dAliases) {
 						continue
@@ -544,8 +548,38 @@ func c09R3Delete(c *Ctx, R3 string, h *c09Helpers) {
 					}
 				}
 			}
+			// the reference is yielded by an iterator: judged where it is yielded (the producer), or — for the
+			// keys of a map — by the filter the map went through
+			filteredOK := false
+			if c09IsYieldBody(f) {
+				if pf, _ := c09ParamOf(args[1]); pf == f {
+					sites = nil
+					AllInstrs(f.Parent(), func(in ssa.Instruction) {
+						seq, body, isRF := c09RangeFuncCall(in)
+						if !isRF || body != f {
+							return
+						}
+						if mk, isCall := c09Resolved(seq).(*ssa.Call); isCall && (CalleeName(mk) == "maps.Keys" || CalleeName(mk) == "maps.All") {
+							if c09MapFilteredTo(mk.Call.Args[0], in, sameAsTarget) {
+								filteredOK = true
+							}
+							return
+						}
+						if vs, closed := c09SitesOf(c.P, f); closed {
+							for _, vsite := range vs {
+								sites = append(sites, keySite{vsite.At, vsite.Tr(args[1])})
+							}
+						}
+					})
+				}
+			}
+			if filteredOK {
+				c.OK(R3, fn+"|untag-only-equal-descriptors", uc.Pos(), "the references untagged are the keys of a map from which every entry not content.Equal to the target was deleted (maps.DeleteFunc)")
+				continue
+			}
 			okAll, undecided := len(sites) > 0, false
 			for _, ks := range sites {
+				f := ks.at.Parent() // the function in which the key is produced
 				var nx ssa.Value
 				if ks.key != nil {
 					for _, r := range Roots(ks.key) {
@@ -573,7 +607,10 @@ func c09R3Delete(c *Ctx, R3 string, h *c09Helpers) {
 					return (isVal(a) && sameAsTarget(b)) || (isVal(b) && sameAsTarget(a))
 				})
 				if !c09Guarded(ks.at, eq) {
-					okAll = false
+					// `for ref := range m` over a map that was filtered down to the equal entries beforehand
+					if nxt, isNext := nx.(*ssa.Next); !isNext || !c09MapFilteredTo(nxt.Iter.(*ssa.Range).X, nxt, sameAsTarget) {
+						okAll = false
+					}
 				}
 			}
 			if undecided {
@@ -587,6 +624,60 @@ func c09R3Delete(c *Ctx, R3 string, h *c09Helpers) {
 	if n == 0 {
 		c.LostAnchor(R3, fn+": Untag of the deleted node's references")
 	}
+}
+
+// c09MapFilteredTo: before `at`, every entry of map m whose value is not
+// content.Equal to the target was deleted: maps.DeleteFunc(m, func(k, v) bool {
+// return !content.Equal(v, target) }) on every path to `at`.
+func c09MapFilteredTo(m ssa.Value, at ssa.Instruction, sameAsTarget func(ssa.Value) bool) bool {
+	fn := at.Parent()
+	var filters []ssa.Instruction
+	for _, call := range CallsTo(fn, "maps.DeleteFunc") {
+		a := call.Common().Args
+		if len(a) != 2 || !c09SameKey(a[0], m) {
+			continue
+		}
+		ok := false
+		for _, rt := range Roots(a[1]) {
+			var pred *ssa.Function
+			switch u := rt.(type) {
+			case *ssa.MakeClosure:
+				pred = u.Fn.(*ssa.Function)
+			case *ssa.Function:
+				pred = u
+			}
+			if pred == nil || len(pred.Params) != 2 {
+				ok = false
+				break
+			}
+			ok = true
+			for _, ra := range RetAtoms(pred, 0) {
+				v := ra.Val
+				neg := false
+				for {
+					u, isNot := v.(*ssa.UnOp)
+					if !isNot || u.Op != token.NOT {
+						break
+					}
+					neg, v = !neg, u.X
+				}
+				eq, isCall := v.(*ssa.Call)
+				if !isCall || CalleeName(eq) != c09nEqual || !neg {
+					ok = false
+					break
+				}
+				x, y := eq.Call.Args[0], eq.Call.Args[1]
+				isVal := func(w ssa.Value) bool { pf, i := c09ParamOf(w); return pf == pred && i == 1 }
+				if !((isVal(x) && sameAsTarget(y)) || (isVal(y) && sameAsTarget(x))) {
+					ok = false
+				}
+			}
+		}
+		if ok {
+			filters = append(filters, call.(ssa.Instruction))
+		}
+	}
+	return len(filters) > 0 && MustPass(at, newCut().Instr(filters...))
 }
 
 // (d) graph.Remove reports a successor only if it lost its last predecessor and is a node.
@@ -1035,6 +1126,61 @@ func c09TaggedTests(fn *ssa.Function, e ssa.Value) (tagged, untagged []Edge) {
 		}
 	}
 	return
+}
+
+// c09WholeSink: a slice value handed on as a whole at an instruction.
+type c09WholeSink struct {
+	at    ssa.Instruction
+	whole ssa.Value
+}
+
+// c09WholeSinks: `append(dst, xs...)` (xs), and — when withReturns — slice
+// results returned by fn; slices.Concat(a, b, …) counts for each of its operands.
+func c09WholeSinks(fn *ssa.Function, withReturns bool) []c09WholeSink {
+	var out []c09WholeSink
+	var add func(at ssa.Instruction, v ssa.Value, depth int)
+	add = func(at ssa.Instruction, v ssa.Value, depth int) {
+		if v == nil || depth > 3 {
+			return
+		}
+		for _, rt := range Roots(c09Resolved(v)) {
+			if call, ok := rt.(*ssa.Call); ok && CalleeName(call) == "slices.Concat" && len(call.Call.Args) == 1 {
+				if sl, isSlice := call.Call.Args[0].(*ssa.Slice); isSlice {
+					if arr, isAlloc := sl.X.(*ssa.Alloc); isAlloc {
+						for _, ref := range *arr.Referrers() {
+							if ia, isIA := ref.(*ssa.IndexAddr); isIA {
+								for _, r2 := range *ia.Referrers() {
+									if st, isSt := r2.(*ssa.Store); isSt && st.Addr == ssa.Value(ia) {
+										add(at, st.Val, depth+1)
+									}
+								}
+							}
+						}
+						continue
+					}
+				}
+			}
+			out = append(out, c09WholeSink{at, rt})
+		}
+	}
+	for _, ap := range CallsTo(fn, "builtin:append") {
+		if _, whole := c09AppendedElems(ap); whole != nil {
+			add(ap.(ssa.Instruction), whole, 0)
+		}
+	}
+	if withReturns {
+		for _, r := range Returns(fn) {
+			for _, res := range r.Results {
+				if _, isSlice := res.Type().Underlying().(*types.Slice); isSlice {
+					if c, isConst := res.(*ssa.Const); isConst && c.Value == nil {
+						continue
+					}
+					add(r, res, 0)
+				}
+			}
+		}
+	}
+	return out
 }
 
 // c09DeleteFuncOf: whole is slices.DeleteFunc(X, pred) where X is the slice (or a
